@@ -6,7 +6,8 @@
    check: 64/64 after the repair, 32/32 before). *)
 From Coq Require Import ZArith List Bool Ring Permutation.
 From PV Require Import Comb.Binom C04.PermModel C04.PermProofs C04.LoopProofs C04.GrayProofs
-  C04.JobProofs C04.SumProofs C04.FinalProofs C04.LaplaceProofs C04.ExpansionProofs.
+  C04.JobProofs C04.SumProofs C04.FinalProofs C04.LaplaceProofs C04.ExpansionProofs
+  C04.GlynnPlain C04.GlynnMult C04.GlynnFinal.
 Import ListNotations.
 Local Close Scope Z_scope.
 Local Open Scope nat_scope.
@@ -142,31 +143,45 @@ Theorem C04_laplace_entry : forall cols row0 rest r j, j < length cols ->
   = nth 0 (glynn_sum A rO rI radd rmul ropp (prods_perm A rI rmul (dec_nth j cols)) 1 row0 rest r) rO.
 Proof. exact (laplace_entry A rO rI radd rmul ropp). Qed.
 
-(* relative to the Glynn/BBFG identity with multiplicities (not proved here: a hypothesis of
-   this section, printed below as a section variable): the kernel returns (num, e) with
-   2^e * perm_def = num, perm_def being the defining sum over the expanded matrix *)
-Hypothesis glynn_mult : glynn_mult_statement A rO rI radd rmul ropp.
+(* Glynn's formula for a square matrix over any commutative ring, multiplied out (no division
+   by 2): rows are functions column -> A, [av] the list of columns (repetitions allowed), Gd the
+   signed sum over all sign vectors with base row u *)
+Theorem C04_glynn_plain : forall R u av, length av = S (length R) ->
+  Gd A rI radd rmul rsub R u av
+  = rmul (rpow A rI rmul (radd rI rI) (length R)) (permF A rO rI radd rmul (u :: R) av).
+Proof. exact (glynn_plain A rO rI radd rmul rsub ropp Rth). Qed.
 
-Theorem C04_perm_loop_correct_partial : forall w threads M rows cols num e,
+(* the Glynn/BBFG identity with multiplicities, exactly as the model needs it: one copy of a row
+   i0 with non-zero multiplicity split off,
+     2^(n-1) perm_def(M; rows; cols)
+       = sum_{g in box} (-1)^(sum g) prod_i C(r_i, g_i) prod_j (a_{i0,j} + sum_i (r_i - 2 g_i) a_ij)^(c_j) *)
+Theorem C04_glynn_mult : glynn_mult_statement A rO rI radd rmul ropp.
+Proof. exact (glynn_mult_proved A rO rI radd rmul rsub ropp Rth). Qed.
+
+(* hence, with no hypothesis: the kernel returns (num, e) with 2^e * perm_def = num, perm_def
+   being the defining sum (first-row expansion of the matrix with repeated rows and columns) *)
+Theorem C04_perm_loop_correct : forall w threads M rows cols num e,
   length M = length rows -> Forall (fun row => length row = length cols) M ->
   1 <= threads -> weight_n wb w (sum_nat rows) ->
   permanent_cpp A rO rI radd rmul ropp wb w threads M rows cols = Ok (num, e) ->
   rmul (rpow A rI rmul (radd rI rI) e) (perm_def A rO rI radd rmul M rows cols) = num.
-Proof. exact (perm_loop_correct_partial A rO rI radd rmul rsub ropp Rth wb glynn_mult). Qed.
-Print Assumptions C04_perm_loop_correct_partial.
+Proof. exact (perm_loop_correct A rO rI radd rmul rsub ropp Rth wb). Qed.
 
-(* the Laplace variant, relative to the same identity: entry j (for a column that is present)
-   is 2^e times the permanent with one copy of column j removed *)
-Theorem C04_laplace_correct_partial : forall w threads M rows cols l e,
+(* the Laplace variant: entry j (for a column that is present) is 2^e times the permanent with
+   one copy of column j removed *)
+Theorem C04_laplace_correct : forall w threads M rows cols l e,
   length M = length rows -> Forall (fun row => length row = length cols) M ->
   1 <= threads -> weight_n wb w (sum_nat rows) ->
   1 <= sum_nat rows -> sum_nat cols = S (sum_nat rows) ->
   permanent_laplace_cpp A rO rI radd rmul ropp wb w threads M rows cols = Ok (l, e) ->
   forall j, j < length cols -> 1 <= nth j cols 0 ->
     rmul (rpow A rI rmul (radd rI rI) e) (perm_def A rO rI radd rmul M rows (dec_nth j cols)) = nth j l rO.
-Proof. exact (laplace_correct_partial A rO rI radd rmul rsub ropp Rth wb glynn_mult). Qed.
-Print Assumptions C04_laplace_correct_partial.
+Proof. exact (laplace_correct A rO rI radd rmul rsub ropp Rth wb). Qed.
 End Generic.
+Print Assumptions C04_glynn_plain.
+Print Assumptions C04_glynn_mult.
+Print Assumptions C04_perm_loop_correct.
+Print Assumptions C04_laplace_correct.
 Print Assumptions C04_laplace_entry.
 Print Assumptions C04_laplace_expansion.
 Print Assumptions C04_gray_step_invariant.
@@ -220,8 +235,7 @@ Example C04_example_perm :
   /\ perm_def_zi [[(1,0);(2,0)];[(3,0);(4,0)]]%Z [2;2] [2;2] = (592, 0)%Z.
 Proof. split; vm_compute; reflexivity. Qed.
 
-(* one instance of the Glynn identity that stays a hypothesis above (complex entries,
-   multiplicities with a zero) *)
+(* one instance of the Glynn identity proved above (complex entries, multiplicities with a zero) *)
 Example C04_example_glynn_instance :
   let M := [[(1,2);(0,-1);(2,0)];[(3,0);(1,1);(-1,0)];[(0,1);(2,0);(1,-3)]]%Z in
   zimul (8, 0)%Z (perm_def_zi M [2;0;2] [1;2;1])
